@@ -85,7 +85,7 @@ StepBattery ==
 \* C06 / C16 / C09-C11: a graph derived from the current object
 StepDerive ==
   /\ Line.op = "derive"
-  /\ fails' = fails \cup { <<l, x[1], x[2]>> : x \in NotOk(DeriveTable(R, prevO, Line)) }
+  /\ fails' = fails \cup { <<l, x[1], x[2]>> : x \in NotOk(DeriveTable(R, T, prevO, Line)) }
   /\ UNCHANGED <<R, T, rej, prevO>>
 
 Step == /\ l <= Len(Traces[tid])
